@@ -1,0 +1,343 @@
+//go:build verif
+// +build verif
+
+package linker
+
+// Exports for the /verif correspondence kernel "metafile" (build tag "verif" only). Add-only.
+//
+//  1. VerifMetaCount: the real accurateFinalByteCount / substituteFinalPaths on hand-built pieces of BOTH
+//     kinds (asset and chunk placeholders) with a real directory of the importing chunk, a public path or
+//     relative paths, and the second substitution the JSON metadata goes through (pretty paths).
+//  2. VerifMetaCapture*: keeps the linker contexts of the builds that run while the capture is on (the
+//     pointer handed to verifObserveChunkOrder), so that after the build the harness can read, per chunk,
+//     the text before path substitution, the real path tables and - for JavaScript chunks - the compile
+//     results printed again by the real generateCodeForFileInChunkJS / renameSymbolsInChunk.
+
+import (
+	"net/url"
+	"strings"
+	"sync"
+
+	"github.com/evanw/esbuild/internal/ast"
+	"github.com/evanw/esbuild/internal/config"
+	"github.com/evanw/esbuild/internal/fs"
+	"github.com/evanw/esbuild/internal/graph"
+	"github.com/evanw/esbuild/internal/helpers"
+	"github.com/evanw/esbuild/internal/logger"
+	"github.com/evanw/esbuild/internal/resolver"
+	"github.com/evanw/esbuild/internal/runtime"
+)
+
+// ---------------------------------------------------------------------------------------------------------
+// 1. mixed pieces
+
+type VerifMetaCountResult struct {
+	Joined     []byte   // substituteFinalPaths with pathBetweenChunks(fromDir, ·)
+	Count      int      // accurateFinalByteCount(pieces, fromDir)
+	JSONJoined []byte   // substituteFinalPaths with the pretty-path function used for the JSON metadata
+	AssetPaths []string // per file index: the import path substituted for an asset placeholder ("" = no single additional file)
+	ChunkPaths []string // per chunk index: the import path substituted for a chunk placeholder
+	AssetJSON  []string // the same two tables for the JSON substitution
+	ChunkJSON  []string
+}
+
+// VerifMetaCount builds a linker context over a mock file system with output directory /out, one file per
+// entry of assetRel (the additional file of file i is /out/<assetRel[i]>; "" = the file has none, "*" = it has
+// two) and one chunk per entry of chunkRel, and runs the real routines on the pieces.
+func VerifMetaCount(assetRel []string, chunkRel []string, publicPath string, fromDir string, pieces []VerifPiece) VerifMetaCountResult {
+	c := verifMetaContext(assetRel, chunkRel, publicPath)
+	io := intermediateOutput{}
+	for _, p := range pieces {
+		io.pieces = append(io.pieces, outputPiece{data: p.Data, index: p.Index, kind: outputPieceIndexKind(p.Kind)})
+	}
+	res := VerifMetaCountResult{}
+	code := func(rel string) string { return c.pathBetweenChunks(fromDir, rel) }
+	pretty := func(rel string) string {
+		prettyPaths := resolver.MakePrettyPaths(c.fs, logger.Path{Text: c.fs.Join(c.options.AbsOutputDir, rel), Namespace: "file"})
+		return prettyPaths.Select(c.options.MetafilePathStyle)
+	}
+	for i, rel := range assetRel {
+		a, b := "", ""
+		if rel != "" && rel != "*" {
+			one := intermediateOutput{pieces: []outputPiece{{kind: outputPieceAssetIndex, index: uint32(i)}}}
+			j1, _ := c.substituteFinalPaths(one, code)
+			j2, _ := c.substituteFinalPaths(one, pretty)
+			a, b = string(j1.Done()), string(j2.Done())
+		}
+		res.AssetPaths = append(res.AssetPaths, a)
+		res.AssetJSON = append(res.AssetJSON, b)
+	}
+	for i := range chunkRel {
+		one := intermediateOutput{pieces: []outputPiece{{kind: outputPieceChunkIndex, index: uint32(i)}}}
+		j1, _ := c.substituteFinalPaths(one, code)
+		j2, _ := c.substituteFinalPaths(one, pretty)
+		res.ChunkPaths = append(res.ChunkPaths, string(j1.Done()))
+		res.ChunkJSON = append(res.ChunkJSON, string(j2.Done()))
+	}
+	j, _ := c.substituteFinalPaths(io, code)
+	res.Joined = j.Done()
+	res.Count = c.accurateFinalByteCount(io, fromDir)
+	jj, _ := c.substituteFinalPaths(io, pretty)
+	res.JSONJoined = jj.Done()
+	return res
+}
+
+func verifMetaContext(assetRel []string, chunkRel []string, publicPath string) *linkerContext {
+	c := &linkerContext{
+		uniqueKeyPrefix:      "zz",
+		uniqueKeyPrefixBytes: []byte("zz"),
+		options:              &config.Options{PublicPath: publicPath, AbsOutputDir: "/out"},
+		log:                  logger.NewDeferLog(logger.DeferLogAll, nil),
+	}
+	c.fs = fs.MockFS(map[string]string{}, fs.MockUnix, "/")
+	c.graph.Files = make([]graph.LinkerFile, len(assetRel))
+	for i, rel := range assetRel {
+		switch rel {
+		case "":
+		case "*":
+			c.graph.Files[i].InputFile.AdditionalFiles = []graph.OutputFile{{AbsPath: "/out/x"}, {AbsPath: "/out/y"}}
+		default:
+			c.graph.Files[i].InputFile.AdditionalFiles = []graph.OutputFile{{AbsPath: "/out/" + rel}}
+			c.graph.Files[i].InputFile.UniqueKeyForAdditionalFile = verifUniqueKey("zz", 'A', uint32(i))
+		}
+	}
+	c.chunks = make([]chunkInfo, len(chunkRel))
+	for i, p := range chunkRel {
+		c.chunks[i].finalRelPath = p
+		c.chunks[i].uniqueKey = verifUniqueKey("zz", 'C', uint32(i))
+	}
+	return c
+}
+
+// VerifMetaBreakJoiner runs the real breakJoinerIntoPieces on a joiner made of the given parts and reports
+// whether the "no placeholder" shortcut was taken (pieces == nil) and the pieces otherwise.
+func VerifMetaBreakJoiner(prefix string, nFiles int, nChunks int, parts [][]byte) (shortcut bool, pieces []VerifPiece) {
+	c := verifContext(prefix, nFiles, make([]string, nChunks), "")
+	j := helpers.Joiner{}
+	for i, p := range parts {
+		if i%2 == 0 {
+			j.AddBytes(p)
+		} else {
+			j.AddString(string(p))
+		}
+	}
+	out := c.breakJoinerIntoPieces(j)
+	if out.pieces == nil {
+		return true, nil
+	}
+	for _, p := range out.pieces {
+		pieces = append(pieces, VerifPiece{Data: p.data, Index: p.index, Kind: uint8(p.kind)})
+	}
+	return false, pieces
+}
+
+// ---------------------------------------------------------------------------------------------------------
+// 2. real builds
+
+// VerifMetaContext is an opaque handle on the linker context of one Link call.
+type VerifMetaContext struct{ c *linkerContext }
+
+var verifMetaMutex sync.Mutex
+var verifMetaOn bool
+var verifMetaContexts []*VerifMetaContext
+
+// VerifMetaCaptureStart makes every Link call that follows keep its context until VerifMetaCaptureTake.
+func VerifMetaCaptureStart() {
+	verifMetaMutex.Lock()
+	verifMetaOn = true
+	verifMetaContexts = nil
+	verifMetaMutex.Unlock()
+}
+
+// VerifMetaCaptureTake ends the capture and returns the contexts (one per Link call, in arrival order).
+func VerifMetaCaptureTake() []*VerifMetaContext {
+	verifMetaMutex.Lock()
+	defer verifMetaMutex.Unlock()
+	out := verifMetaContexts
+	verifMetaContexts = nil
+	verifMetaOn = false
+	return out
+}
+
+// called from verifObserveChunkOrder (the one line added there)
+func verifMetaStash(c *linkerContext) {
+	verifMetaMutex.Lock()
+	if verifMetaOn {
+		verifMetaContexts = append(verifMetaContexts, &VerifMetaContext{c: c})
+	}
+	verifMetaMutex.Unlock()
+}
+
+// VerifMetaCR is one compile result of a chunk, in the order in which the chunk generator joins them.
+type VerifMetaCR struct {
+	SourceIndex int    // -1: CSS compile result without a source (external @import, hoisted @layer)
+	Omit        bool   // InputFile.OmitFromSourceMapsAndMetafile (the runtime)
+	Code        []byte // JS chunks only: the bytes printed again by the real generateCodeForFileInChunkJS
+	CodePath    string // PrettyPaths.Select(CodePathStyle): the text of the "// path" comment before escaping
+	MetaPath    []byte // QuoteForJSON(PrettyPaths.Select(MetafilePathStyle), ASCIIOnly): the key in "inputs"
+}
+
+type VerifMetaChunk struct {
+	IsJS         bool
+	IsEntryPoint bool
+	FinalRelPath string
+	AbsPath      string // Join(AbsOutputDir, FinalRelPath)
+
+	// the chunk before path substitution
+	Shortcut bool         // intermediateOutput.pieces == nil: Text is the joiner's content
+	Text     []byte       // Shortcut only
+	Pieces   []VerifPiece // otherwise
+
+	CRs       []VerifMetaCR
+	EntryTail []byte // JS entry-point chunks: generateEntryPointTailJS printed again
+
+	// what the placeholders of this chunk are replaced with (real pathBetweenChunks from this chunk's directory)
+	AssetPaths []string // per file index; "" when the file does not have exactly one additional file
+	ChunkPaths []string // per chunk index
+
+	// text appended after the substitution
+	LegalLink    string // "" = none; else the import path inside "/*! For license information please see … */"
+	SourceMapURL string // "" = none; else the escaped path of the linked source map
+	InlineMap    bool   // an inline source map comment is appended (its payload is not reproduced here)
+}
+
+type VerifMetaDump struct {
+	Prefix           string
+	NFiles           int
+	Bundle           bool // Mode == ModeBundle
+	MinifyWhitespace bool
+	MinifiedMetafile bool
+	IIFE             bool
+	ASCIIOnly        bool
+	AssetJSON        []string // per file index: what an asset placeholder inside the JSON metadata is replaced with ("" = none)
+	ChunkJSON        []string // per chunk index: the same for chunk placeholders = the key of the chunk in "outputs"
+	Chunks           []VerifMetaChunk
+}
+
+func (h *VerifMetaContext) Dump() (d VerifMetaDump) {
+	c := h.c
+	d.Prefix = c.uniqueKeyPrefix
+	d.NFiles = len(c.graph.Files)
+	d.Bundle = c.options.Mode == config.ModeBundle
+	d.MinifyWhitespace = c.options.MinifyWhitespace
+	d.MinifiedMetafile = c.options.MetafileFormat == config.MinifiedMetafile
+	d.IIFE = c.options.OutputFormat == config.FormatIIFE
+	d.ASCIIOnly = c.options.ASCIIOnly
+	pretty := func(rel string) string {
+		prettyPaths := resolver.MakePrettyPaths(c.fs, logger.Path{Text: c.fs.Join(c.options.AbsOutputDir, rel), Namespace: "file"})
+		return prettyPaths.Select(c.options.MetafilePathStyle)
+	}
+	d.AssetJSON = make([]string, len(c.graph.Files))
+	for i := range c.graph.Files {
+		if add := c.graph.Files[i].InputFile.AdditionalFiles; len(add) == 1 {
+			one := intermediateOutput{pieces: []outputPiece{{kind: outputPieceAssetIndex, index: uint32(i)}}}
+			j, _ := c.substituteFinalPaths(one, pretty)
+			d.AssetJSON[i] = string(j.Done())
+		}
+	}
+	d.ChunkJSON = make([]string, len(c.chunks))
+	for i := range c.chunks {
+		d.ChunkJSON[i] = pretty(c.chunks[i].finalRelPath)
+	}
+	for i := range c.chunks {
+		d.Chunks = append(d.Chunks, h.chunk(i))
+	}
+	return
+}
+
+func (h *VerifMetaContext) chunk(chunkIndex int) (m VerifMetaChunk) {
+	c := h.c
+	chunk := &c.chunks[chunkIndex]
+	m.IsEntryPoint = chunk.isEntryPoint
+	m.FinalRelPath = chunk.finalRelPath
+	m.AbsPath = c.fs.Join(c.options.AbsOutputDir, chunk.finalRelPath)
+	if chunk.intermediateOutput.pieces == nil {
+		m.Shortcut = true
+		j := chunk.intermediateOutput.joiner
+		m.Text = append([]byte{}, j.Done()...)
+	} else {
+		for _, p := range chunk.intermediateOutput.pieces {
+			m.Pieces = append(m.Pieces, VerifPiece{Data: p.data, Index: p.index, Kind: uint8(p.kind)})
+		}
+	}
+
+	finalRelDir := c.fs.Dir(chunk.finalRelPath)
+	m.AssetPaths = make([]string, len(c.graph.Files))
+	for i := range c.graph.Files {
+		if add := c.graph.Files[i].InputFile.AdditionalFiles; len(add) == 1 {
+			one := intermediateOutput{pieces: []outputPiece{{kind: outputPieceAssetIndex, index: uint32(i)}}}
+			j, _ := c.substituteFinalPaths(one, func(rel string) string { return c.pathBetweenChunks(finalRelDir, rel) })
+			m.AssetPaths[i] = string(j.Done())
+		}
+	}
+	m.ChunkPaths = make([]string, len(c.chunks))
+	for i := range c.chunks {
+		m.ChunkPaths[i] = c.pathBetweenChunks(finalRelDir, c.chunks[i].finalRelPath)
+	}
+
+	if len(chunk.externalLegalComments) > 0 && c.options.LegalComments == config.LegalCommentsLinkedWithComment {
+		m.LegalLink = strings.TrimPrefix(c.pathBetweenChunks(finalRelDir, chunk.finalRelPath+".LEGAL.txt"), "./")
+	}
+	if c.options.SourceMap != config.SourceMapNone && chunk.outputSourceMap.HasContent() {
+		switch c.options.SourceMap {
+		case config.SourceMapLinkedWithComment:
+			importPath := strings.TrimPrefix(c.pathBetweenChunks(finalRelDir, chunk.finalRelPath+".map"), "./")
+			importURL := url.URL{Path: importPath}
+			m.SourceMapURL = importURL.EscapedPath()
+		case config.SourceMapInline, config.SourceMapInlineAndExternal:
+			m.InlineMap = true
+		}
+	}
+
+	cr := func(sourceIndex uint32) VerifMetaCR {
+		file := &c.graph.Files[sourceIndex].InputFile
+		return VerifMetaCR{
+			SourceIndex: int(sourceIndex),
+			Omit:        file.OmitFromSourceMapsAndMetafile,
+			CodePath:    file.Source.PrettyPaths.Select(c.options.CodePathStyle),
+			MetaPath:    helpers.QuoteForJSON(file.Source.PrettyPaths.Select(c.options.MetafilePathStyle), c.options.ASCIIOnly),
+		}
+	}
+
+	switch chunkRepr := chunk.chunkRepr.(type) {
+	case *chunkReprCSS:
+		for _, entry := range chunkRepr.importsInChunkInOrder {
+			if entry.kind == cssImportSourceIndex {
+				m.CRs = append(m.CRs, cr(entry.sourceIndex))
+			} else {
+				m.CRs = append(m.CRs, VerifMetaCR{SourceIndex: -1})
+			}
+		}
+
+	case *chunkReprJS:
+		m.IsJS = true
+
+		// The head of generateChunkJS once more: the same renamer and the same printing routine
+		runtimeMembers := c.graph.Files[runtime.SourceIndex].InputFile.Repr.(*graph.JSRepr).AST.ModuleScope.Members
+		toCommonJSRef := ast.FollowSymbols(c.graph.Symbols, runtimeMembers["__toCommonJS"].Ref)
+		toESMRef := ast.FollowSymbols(c.graph.Symbols, runtimeMembers["__toESM"].Ref)
+		runtimeRequireRef := ast.FollowSymbols(c.graph.Symbols, runtimeMembers["__require"].Ref)
+		r := c.renameSymbolsInChunk(chunk, chunkRepr.filesInChunkInOrder, c.timer.Fork())
+		dataForSourceMaps := c.dataForSourceMaps()
+		results := make([]compileResultJS, 0, len(chunkRepr.partsInChunkInOrder))
+		waitGroup := sync.WaitGroup{}
+		for _, partRange := range chunkRepr.partsInChunkInOrder {
+			if partRange.sourceIndex == runtime.SourceIndex && c.options.OmitRuntimeForTests {
+				continue
+			}
+			results = append(results, compileResultJS{})
+			waitGroup.Add(1)
+			c.generateCodeForFileInChunkJS(r, &waitGroup, partRange, toCommonJSRef, toESMRef, runtimeRequireRef, &results[len(results)-1], dataForSourceMaps)
+		}
+		waitGroup.Wait()
+		for _, result := range results {
+			item := cr(result.sourceIndex)
+			item.Code = result.JS
+			m.CRs = append(m.CRs, item)
+		}
+		if chunk.isEntryPoint {
+			m.EntryTail = c.generateEntryPointTailJS(r, toCommonJSRef, toESMRef, chunk.sourceIndex).JS
+		}
+	}
+	return
+}
